@@ -12,6 +12,7 @@ use std::collections::BTreeSet;
 use std::io::Read;
 
 use hickory_proto::rr::{Name, RData, Record, RecordType};
+use hickory_proto::serialize::binary::{BinEncodable, BinEncoder, NameEncoding};
 use hickory_proto::serialize::txt::{ParseError, Parser};
 use vph::*;
 
@@ -84,7 +85,22 @@ fn rec_bytes(r: &Record, lower: bool) -> Vec<u8> {
             o.extend_from_slice(&(s.expire as u32).to_be_bytes());
             o.extend_from_slice(&s.minimum.to_be_bytes());
         }
-        _ => o.push(0xEE),
+        other => {
+            // a type outside the Coq model: DNS type code and the RDATA as uncompressed, lower-cased wire bytes
+            // (compared by the oracle of the `other-types` family only; the model answers "unmodelled")
+            o.push(0xEE);
+            o.extend_from_slice(&u16::from(r.record_type()).to_be_bytes());
+            let mut buf = Vec::new();
+            {
+                let mut e = BinEncoder::new(&mut buf);
+                e.canonical_form = true;
+                e.name_encoding = NameEncoding::UncompressedLowercase;
+                if other.emit(&mut e).is_err() {
+                    buf = vec![0xFF];
+                }
+            }
+            o.extend(buf);
+        }
     }
     o
 }
@@ -1090,6 +1106,91 @@ fn long_lexeme(r: &mut Rng, origin: &GName) -> (Vec<u8>, Option<Vec<GRec>>, usiz
 
 // ---------------------------------------------------------------- cases
 
+/// records of types outside the Coq model (AAAA, SRV, HINFO, SSHFP): one plain line per record with an absolute,
+/// unique owner; returns the text and the expected lower-cased dump (RDATA as the wire bytes the text denotes)
+fn other_types(r: &mut Rng, origin: &GName) -> (Vec<u8>, Vec<Vec<u8>>) {
+    const WORDS: &[&str] = &["www", "mail", "ns1", "sip", "host-1", "a1b2", "x", "_tcp"];
+    let n = r.range(1, 4) as usize;
+    let mut text: Vec<u8> = Vec::new();
+    let mut exp = Vec::new();
+    let wire_name = |labels: &[Vec<u8>]| -> Vec<u8> {
+        let mut w = vec![];
+        for l in labels {
+            w.push(l.len() as u8);
+            w.extend(lower(l));
+        }
+        w.push(0);
+        w
+    };
+    let dotted = |labels: &[Vec<u8>]| -> String {
+        if labels.is_empty() {
+            ".".to_string()
+        } else {
+            labels.iter().map(|l| String::from_utf8_lossy(l).to_string() + ".").collect()
+        }
+    };
+    for k in 0..n {
+        let mut owner = vec![format!("o{k}").into_bytes()];
+        if r.chance(1, 2) {
+            owner.push(r.pick(WORDS).as_bytes().to_vec());
+        }
+        owner.extend(origin.labels.iter().cloned());
+        let ttl = r.range(0, 604800) as u32;
+        let mut target = vec![r.pick(WORDS).as_bytes().to_vec()];
+        target.extend(origin.labels.iter().cloned());
+        let (tname, tcode, rtext, rwire): (&str, u16, String, Vec<u8>) = match r.below(4) {
+            0 => {
+                let mut a = [0u8; 16];
+                for b in a.iter_mut() {
+                    *b = if r.chance(1, 3) { 0 } else { r.next() as u8 };
+                }
+                ("AAAA", 28, std::net::Ipv6Addr::from(a).to_string(), a.to_vec())
+            }
+            1 => {
+                let (p, w, port) = (r.below(65536) as u16, r.below(65536) as u16, r.below(65536) as u16);
+                let mut wire = vec![];
+                for v in [p, w, port] {
+                    wire.extend_from_slice(&v.to_be_bytes());
+                }
+                wire.extend(wire_name(&target));
+                ("SRV", 33, format!("{p} {w} {port} {}", dotted(&target)), wire)
+            }
+            2 => {
+                let cpu = *r.pick(&["INTEL-386", "VAX-11/780", "arm64", "x"]);
+                let os = *r.pick(&["UNIX", "Linux", "TOPS-20", "y"]);
+                let mut wire = vec![cpu.len() as u8];
+                wire.extend(cpu.as_bytes());
+                wire.push(os.len() as u8);
+                wire.extend(os.as_bytes());
+                ("HINFO", 13, format!("{cpu} {os}"), wire)
+            }
+            _ => {
+                let alg = r.range(1, 4) as u8;
+                let ft = r.range(1, 2) as u8;
+                let fp = r.bytes(if ft == 1 { 20 } else { 32 });
+                let hex: String = fp.iter().map(|b| format!("{b:02X}")).collect();
+                let mut wire = vec![alg, ft];
+                wire.extend(&fp);
+                ("SSHFP", 44, format!("{alg} {ft} {hex}"), wire)
+            }
+        };
+        let tname = if r.chance(1, 4) { tname.to_lowercase() } else { tname.to_string() };
+        let sep = if r.chance(1, 3) { "\t" } else { " " };
+        text.extend(format!("{}{sep}{ttl}{sep}IN{sep}{tname}{sep}{rtext}\n", dotted(&owner)).into_bytes());
+        let mut e = vec![];
+        GName { labels: owner }.enc(&mut e);
+        e.push(255);
+        e.extend_from_slice(&1u16.to_be_bytes());
+        e.extend_from_slice(&ttl.to_be_bytes());
+        e.push(0xEE);
+        e.extend_from_slice(&tcode.to_be_bytes());
+        e.extend(rwire);
+        exp.push(e);
+    }
+    exp.sort();
+    (text, exp)
+}
+
 fn origin_coq(o: Option<&GName>) -> String {
     match o {
         None => "None".into(),
@@ -1196,6 +1297,10 @@ fn build(seed: u64, index: u64) -> Built {
             mutate(&mut r, &mut text);
             let none = r.chance(1, 10);
             Built { origin: if none { None } else { Some(origin) }, text, kind: "mutated".into(), expect: None, must_err: false, classes: vec![], note: String::new() }
+        }
+        17 if (index / 20) % 2 == 0 => {
+            let (text, e) = other_types(&mut r, &origin);
+            Built { origin: Some(origin), text, kind: "other-types".into(), expect: Some(e), must_err: false, classes: vec![], note: String::new() }
         }
         17 => {
             let text = soup(&mut r);
